@@ -192,6 +192,16 @@ theorem edgeUpdate_rate (c k : α) (hc : 0 < c) (hk : 0 < k) (P : Projections α
       simp only [Option.map_none, rmul2, getP_map, sc2_rmul, damp_invariant k hk,
         sub2_rmul, hP.gamma, absorb_rate k hk]
 
+/-- the two halves run by the driver (with the real kernel's value in between) compose to `edgeUpdate` -/
+theorem edgeUpdate_eq_post_pre (P : Projections α) (edges : List (Nat × Nat)) (lik : List (α × α))
+    (fixedAge : List (Option α)) (maxShape minStep tiny : α) (s : EPState α) (ei : Nat) :
+    edgeUpdate P edges lik fixedAge maxShape minStep tiny s ei
+      = edgePost P maxShape ei (edgePre edges lik fixedAge minStep tiny s ei) := by
+  simp only [edgeUpdate, edgePre, edgePost]
+  generalize fixedAge.getD (edges.getD ei (0, 0)).1 none = a
+  generalize fixedAge.getD (edges.getD ei (0, 0)).2 none = b
+  cases a <;> cases b <;> rfl
+
 /-- **A pass of `propagate_likelihood` over any edge order is equivariant** (induction over the order). -/
 theorem likelihoodPass_rate (c k : α) (hc : 0 < c) (hk : 0 < k) (P : Projections α)
     (hP : ProjEquivariant c k P) (edges : List (Nat × Nat)) (lik : List (α × α))
